@@ -41,6 +41,24 @@ enum TOut {
 
 type TFut = Pin<Box<dyn Future<Output = TOut>>>;
 
+/// Heap vector lent to an in-place batch future through a raw pointer (no Box moves while the
+/// future holds the `&mut`, so the borrow stays valid under Stacked/Tree Borrows).
+struct RawVec(*mut Vec<Val>);
+impl RawVec {
+  fn into_box(self) -> Box<Vec<Val>> {
+    let p = self.0;
+    std::mem::forget(self);
+    // SAFETY: created by Box::into_raw; the future that borrowed it is gone by now.
+    unsafe { Box::from_raw(p) }
+  }
+}
+impl Drop for RawVec {
+  fn drop(&mut self) {
+    // SAFETY: as above.
+    unsafe { drop(Box::from_raw(self.0)) }
+  }
+}
+
 struct Task {
   fut: Option<TFut>,
   side: Side,
@@ -49,7 +67,7 @@ struct Task {
   seen: u64,
   ev: usize,
   /// caller-owned vec of in-place batch forms (kept alive behind the future)
-  vec: Option<Box<Vec<Val>>>,
+  vec: Option<RawVec>,
   form: Form,
   polls: u32,
   repolled_with_new_waker: bool,
@@ -89,7 +107,7 @@ struct World {
 }
 
 fn ids_of(vs: &[Val]) -> Vec<u64> {
-  vs.iter().map(|v| v.id).collect()
+  vs.iter().map(|v| v.wid()).collect()
 }
 
 impl World {
@@ -296,7 +314,7 @@ impl World {
     // the handle is touched again (`busy`) or dropped.
     let hp: *mut dyn ATx = &mut **self.txs[i].a.as_mut().unwrap();
     let h: &'static mut dyn ATx = unsafe { &mut *hp };
-    let mut vecbox: Option<Box<Vec<Val>>> = None;
+    let mut vecbox: Option<RawVec> = None;
     let fut: TFut = match kind {
       0 => {
         let v = vs.pop().unwrap();
@@ -308,9 +326,8 @@ impl World {
         Box::pin(async move { TOut::Batch(f.await) })
       }
       _ => {
-        let mut b = Box::new(vs);
-        let vp: *mut Vec<Val> = &mut *b;
-        vecbox = Some(b);
+        let vp: *mut Vec<Val> = Box::into_raw(Box::new(vs));
+        vecbox = Some(RawVec(vp));
         let f = h.send_batch_mut(unsafe { &mut *vp });
         Box::pin(async move { TOut::BatchMut(f.await) })
       }
@@ -350,7 +367,7 @@ impl World {
     let evi = self.log.begin(ev);
     let hp: *mut dyn ARx = &mut **self.rxs[i].a.as_mut().unwrap();
     let h: &'static mut dyn ARx = unsafe { &mut *hp };
-    let mut vecbox: Option<Box<Vec<Val>>> = None;
+    let mut vecbox: Option<RawVec> = None;
     let fut: TFut = match kind {
       0 => {
         let f = h.recv();
@@ -361,9 +378,8 @@ impl World {
         Box::pin(async move { TOut::Many(f.await) })
       }
       2 => {
-        let mut b = Box::new(Vec::new());
-        let vp: *mut Vec<Val> = &mut *b;
-        vecbox = Some(b);
+        let vp: *mut Vec<Val> = Box::into_raw(Box::new(Vec::new()));
+        vecbox = Some(RawVec(vp));
         let f = h.recv_batch_mut(unsafe { &mut *vp }, max);
         Box::pin(async move { TOut::Count(f.await) })
       }
@@ -446,7 +462,7 @@ impl World {
       let t = &self.tasks[ti];
       (t.side, t.hidx, t.ev, t.form)
     };
-    let vec = self.tasks[ti].vec.take();
+    let vec: Option<Box<Vec<Val>>> = self.tasks[ti].vec.take().map(|r| r.into_box());
     if side == Side::Tx {
       self.txs[hidx].busy = false;
     } else {
@@ -504,7 +520,7 @@ impl World {
         },
         Some(TOut::One(r)) => match r {
           Ok(v) => {
-            e.vals = vec![v.id];
+            e.vals = vec![v.wid()];
             e.out = Out::Ok;
           }
           Err(_) => {
@@ -531,7 +547,7 @@ impl World {
         },
         Some(TOut::Next(r)) => match r {
           Some(v) => {
-            e.vals = vec![v.id];
+            e.vals = vec![v.wid()];
             e.out = Out::Ok;
           }
           None => {
@@ -690,7 +706,7 @@ fn run_program(fl: Flavour, cap: usize, steps: usize, rng: &mut Rng, tiny: bool)
               TrySendError::Sent(v) => (Out::Sent, v),
             };
             e.out = o;
-            e.back = vec![v.id];
+            e.back = vec![v.wid()];
           }
           Err(p) => {
             let n = format!("{} @ {}", vh_core::panic_message(&*p), vh_core::last_panic_location());
@@ -725,7 +741,7 @@ fn run_program(fl: Flavour, cap: usize, steps: usize, rng: &mut Rng, tiny: bool)
         let mut disc = false;
         w.log.end(idx, |e| match res {
           Ok(Ok(v)) => {
-            e.vals = vec![v.id];
+            e.vals = vec![v.wid()];
             e.n_ok = 1;
             e.out = Out::Ok;
           }
@@ -897,7 +913,7 @@ fn run_program(fl: Flavour, cap: usize, steps: usize, rng: &mut Rng, tiny: bool)
       let mut pn = None;
       w.log.end(idx, |e| match res {
         Ok(Ok(v)) => {
-          e.vals = vec![v.id];
+          e.vals = vec![v.wid()];
           e.n_ok = 1;
           e.out = Out::Ok;
         }
